@@ -10,7 +10,10 @@ import (
 	"pgregory.net/rapid"
 )
 
-// Limits are the six span limits, used as-is (WithRawSpanLimits).
+// Limits are six span limit numbers. Case.Limits holds the numbers the
+// application configures; how they reach the provider is Case.Cfg (see
+// limits_test.go), and the limits the span actually runs under are derived
+// from both by the model (effective).
 type Limits struct {
 	ValueLen int `json:"value_len"`
 	Attrs    int `json:"attrs"`
@@ -38,6 +41,12 @@ type LinkD struct {
 //	error : RecordError(err(Err, Text), WithAttributes(KVs...)[, WithStackTrace(true)][, WithTimestamp(TS)])
 //	status: SetStatus(Code, Text)
 //	name  : SetName(Text)
+//	peek  : no call on the trace.Span: whoever holds the ReadWriteSpan the SDK
+//	        handed to SpanProcessor.OnStart READS the span at this point of the
+//	        program (Attributes, Events, Links, the three dropped counts, Name,
+//	        Status, EndTime). Reading is not one of the statement's calls and
+//	        the model ignores it; it decides WHEN the SDK folds duplicate keys
+//	        (reading the attributes of a live span de-duplicates eagerly).
 //	end   : End([WithTimestamp(TS)][, WithStackTrace(true|false)]), called plainly
 //	        (Panic 0), as the deferred call of a goroutine that is panicking
 //	        with the value panicValue(PanicVal, Text) (Panic 1: `defer
@@ -79,19 +88,45 @@ type Op struct {
 
 // Case is one generated program.
 type Case struct {
-	Limits       Limits  `json:"limits"`
-	Name         vk.Str  `json:"name"`
-	Kind         int     `json:"kind"` // trace.SpanKind 0..5
-	HasStartTS   bool    `json:"has_start_ts,omitempty"`
-	StartTS      int64   `json:"start_ts,omitempty"`
-	StartAttrs   []vk.KV `json:"start_attrs,omitempty"`
-	SamplerAttrs []vk.KV `json:"sampler_attrs,omitempty"`
-	StartLinks   []LinkD `json:"start_links,omitempty"`
-	Ops          []Op    `json:"ops"`
+	Limits Limits `json:"limits"`
+	// Cfg: the public way the numbers of Limits are configured (zero value:
+	// WithRawSpanLimits with a literal SpanLimits).
+	Cfg          LimitsCfg `json:"cfg"`
+	Name         vk.Str    `json:"name"`
+	Kind         int       `json:"kind"` // trace.SpanKind 0..5
+	HasStartTS   bool      `json:"has_start_ts,omitempty"`
+	StartTS      int64     `json:"start_ts,omitempty"`
+	StartAttrs   []vk.KV   `json:"start_attrs,omitempty"`
+	SamplerAttrs []vk.KV   `json:"sampler_attrs,omitempty"`
+	StartLinks   []LinkD   `json:"start_links,omitempty"`
+	Ops          []Op      `json:"ops"`
 	// A sibling span of a second TracerProvider with its own limits; it
 	// receives the ops marked Share (same slice objects as the primary).
 	HasSib bool   `json:"has_sib,omitempty"`
 	Sib    Limits `json:"sib"`
+	// RecordOnly: the sampler's decision is RecordOnly instead of
+	// RecordAndSample (the span records and is handed to the processors all
+	// the same).
+	RecordOnly bool `json:"record_only,omitempty"`
+	// Parent: what the context passed to Start holds. 0 nothing, 1 a sampled
+	// local span context, 2 a sampled remote one, 3 an unsampled remote one
+	// with tracestate, 4 as 1 and the span is started WithNewRoot.
+	Parent int `json:"parent,omitempty"`
+	// SibDeprecated: the sibling's numbers go through the deprecated
+	// WithSpanLimits (zero / negative numbers mean the documented defaults).
+	SibDeprecated bool `json:"sib_deprecated,omitempty"`
+}
+
+// eff is the case with the numbers of Limits / Sib replaced by the limits the
+// two providers' spans run under according to the documentation of the way
+// they were configured. Model, comparison and classes work on eff(c); only
+// the construction of the providers uses the case as generated.
+func eff(c Case) Case {
+	c.Limits = effective(c.Limits, c.Cfg)
+	if c.SibDeprecated {
+		c.Sib = defaulted(c.Sib)
+	}
+	return c
 }
 
 var limitValues = []int{-1, 0, 0, 1, 1, 2, 2, 3, 3, 5, 5, 128}
@@ -297,11 +332,12 @@ func genStack(t *rapid.T, op *Op) {
 }
 
 func genOp1(t *rapid.T, o genOpts, idx int, heavy bool, allowEnd bool) Op {
-	kinds := []string{"attrs", "attrs", "attrs", "attrs", "attrs", "event", "event", "event", "link", "link", "error", "error", "status", "status", "name"}
+	kinds := []string{"attrs", "attrs", "attrs", "attrs", "attrs", "event", "event", "event", "link", "link", "error", "error", "status", "status", "name", "peek"}
 	if heavy {
 		for i := 0; i < 60; i++ {
 			kinds = append(kinds, "attrs")
 		}
+		kinds = append(kinds, "peek", "peek", "peek")
 	}
 	if allowEnd {
 		kinds = append(kinds, "end", "end", "end")
@@ -434,15 +470,25 @@ func gen(t *rapid.T) Case {
 		c.Limits.PerEvent = rapid.SampledFrom(big).Draw(t, "qperevent")
 		c.Limits.PerLink = rapid.SampledFrom(big).Draw(t, "qperlink")
 	}
+	// How the numbers are handed over (after the program shapes above fixed
+	// some of them); strings are then built around the EFFECTIVE value length
+	// limits.
+	c.Cfg = genCfg(t, c.Limits)
 	if c.HasSib {
-		o.vlens = finiteVlens(c.Limits.ValueLen, c.Sib.ValueLen)
+		c.SibDeprecated = rapid.IntRange(0, 3).Draw(t, "sibdeprecated") == 0
+	}
+	ec := eff(c)
+	if c.HasSib {
+		o.vlens = finiteVlens(ec.Limits.ValueLen, ec.Sib.ValueLen)
 	} else {
-		o.vlens = finiteVlens(c.Limits.ValueLen)
+		o.vlens = finiteVlens(ec.Limits.ValueLen)
 	}
 	for _, l := range o.vlens {
 		o.longBias = o.longBias || l > 5
 	}
 	c.Name = vk.GenText(4, true).Draw(t, "spanname")
+	c.RecordOnly = rapid.IntRange(0, 5).Draw(t, "recordonly") == 0
+	c.Parent = rapid.SampledFrom([]int{0, 0, 0, 0, 1, 2, 3, 4}).Draw(t, "parent")
 	c.Kind = rapid.IntRange(0, 5).Draw(t, "kind")
 	if rapid.IntRange(0, 3).Draw(t, "hasstartts") == 0 {
 		c.HasStartTS = true
